@@ -368,6 +368,34 @@
         ? (!(fs)->base.fail && !(fs)->inrec && (fs)->tail + 4 == OLD((fs)->tail) && RD_SAME_CNT(fs)) \
         : ((fs)->base.fail && !(fs)->inrec && (fs)->tail == 0 && RD_SAME_CNT(fs))))
 #endif
+/* ================= breadth-first predecessor search (C11 partial, C19) ================= */
+#define VU_AT_P(v) ((v).vP)
+#define VU_AT_Q(v) (G_P == G_Q ? (v).vP : (v).vQ)
+#define VB_AT_P(v) ((v).vP)
+#define VB_AT_Q(v) (G_P == G_Q ? (v).vP : (v).vQ)
+#define Q_N_Q(q) (G_P == G_Q ? (q).nP : (q).nQ)
+#define Q_PUSHED_Q(q) (G_P == G_Q ? (q).pushedP : (q).pushedQ)
+/* state of a search over graph g (directed base object) from `src`: vectors sized, bookkeeping consistent */
+#define BFS_SAFE(g, dist, pred, done, q)                                      \
+  ((dist).n == (g)->size && (pred).n == (g)->size && (done).n == (g)->size && BG_VECB_WF(done) && \
+   (q).bound <= (g)->size && (q).nP < BG_CAP && (q).nQ < BG_CAP && (q).nO < BG_CAP && (G_P != G_Q || (q).nQ == 0) && \
+   ((q).nP == 0 || (bg_size)G_P < (g)->size) && ((q).nQ == 0 || (bg_size)G_Q < (g)->size) && \
+   (!(q).curValid || ((bg_size)(q).cur < (q).bound && (BG_IS_P((q).cur) ? (q).nP : BG_IS_Q((q).cur) ? (q).nQ : (q).nO) > 0)))
+/* every vertex is enqueued when, and only when, its flag is raised: pushes == raised flags, pointwise too */
+#define BFS_COUNT(g, done, q)                                                 \
+  ((q).pushed == (done).nTrue && (q).popped + BG_QUEUE_LEN(q) == (q).pushed && \
+   ((bg_size)G_P >= (g)->size || (q).pushedP == (VB_AT_P(done) ? 1 : 0)) &&    \
+   ((bg_size)G_Q >= (g)->size || G_P == G_Q || (q).pushedQ == (VB_AT_Q(done) ? 1 : 0)))
+/* what is known about the observed vertices */
+#define BFS_FACTS(g, src, dist, pred, done, q)                                \
+  (((q).nP == 0 || VB_AT_P(done)) && (Q_N_Q(q) == 0 || VB_AT_Q(done)) &&       \
+   ((bg_size)G_Q >= (g)->size || VB_AT_Q(done) || (V_AT_Q(dist) == BG_VERTEX_MAX && VU_AT_Q(pred) == (VertexIndex)BG_VERTEX_MAX)) && \
+   ((bg_size)G_P >= (g)->size || VB_AT_P(done) || (V_AT_P(dist) == BG_VERTEX_MAX && VU_AT_P(pred) == (VertexIndex)BG_VERTEX_MAX)) && \
+   ((src) != G_Q || (VB_AT_Q(done) && V_AT_Q(dist) == 0 && VU_AT_Q(pred) == (VertexIndex)BG_VERTEX_MAX)) && \
+   (!((bg_size)G_Q < (g)->size && (src) != G_Q && VB_AT_Q(done)) || (bg_size)VU_AT_Q(pred) < (g)->size) && \
+   ((src) != G_P || (VB_AT_P(done) && V_AT_P(dist) == 0 && VU_AT_P(pred) == (VertexIndex)BG_VERTEX_MAX)) && \
+   (!((bg_size)G_P < (g)->size && (bg_size)G_Q < (g)->size && G_P != G_Q && (src) != G_Q && VB_AT_Q(done) && VU_AT_Q(pred) == G_P) || \
+    (D_CNT_PQ(g) > 0 && VB_AT_P(done) && V_AT_Q(dist) == V_AT_P(dist) + 1)))
 /* ---- unordered_set<VertexIndex> S and a walk over it */
 #define S_HAS_P(s) ((s).hasP)
 #define S_HAS_Q(s) (G_P == G_Q ? (s).hasP : (s).hasQ)
